@@ -548,6 +548,7 @@ def in_class(d, n, e):
 
 
 CRC0 = collide(b'')
+BOUNDARY = [2, 31, 32, 33, 63, 64, 65, 127, 128, 129, 191, 192, 193, 255, 256, 257]
 
 
 def gen_triple(rng):
@@ -556,6 +557,15 @@ def gen_triple(rng):
     e = rng.choice(EXTS)
     if '.' in n and not e:
         e = 'e'
+    if rng.random() < 0.08:
+        L = rng.choice([63, 64, 65, 127, 128, 129, 191, 192, 193, 256])
+        w = rng.randrange(3)
+        if w == 0:
+            d = 'D' * L
+        elif w == 1:
+            n = 'N' * L
+        else:
+            e = 'E' * L
     return d, n, e
 
 
@@ -579,6 +589,8 @@ def gen_data(rng, big_ok=True):
         size = rng.choice([15, 17, 1025])
     if rng.random() < 0.15:
         size = rng.randrange(0, 2100)
+    if rng.random() < 0.08:
+        size = rng.choice(BOUNDARY)
     if rng.random() < 0.02:
         return ['x', CRC0.hex()]        # non-empty payload whose CRC-32 equals EMPTY_CHECKSUM
     return ['g', rng.randrange(0, 1000), size]
